@@ -28,9 +28,9 @@ CLAIMED = {
  "C05": ("conserve", "FILL definite-assignment rule (incl. the two-pointer idiom, total iff l <= r), FMAP conservation rule", "DESIGN.md 4/C05",
          "Static decision of 'no part of a multi-part location is lost' as definite assignment of the reversed slice in Joined/Ordered.Reverse, Regions.Complement/Locate and the Region() builders (FILL, 7 sites), and that Reverse, Complement and Concat conserve every feature (FMAP). Does not decide the mirroring arithmetic.",
          "Same trusted base as C02; the involution of the complement alphabet is decided under C18."),
- "C09": ("orders", "exact abstract interpretation over the finite domain of orderings (total preorders) of the inputs of comparison-only functions", "DESIGN.md 4/C09",
-         "Static, exhaustive decision that BySegment.Less - the order Minimize and Search/Match sort by - is a strict weak order by (low end, high end) on orientation-normalised segments for all 4683 orderings of six endpoints, and that Min/Max/Compare are correct. Necessary for Minimize to merge every overlap regardless of input order; the merge loop itself is not decided.",
-         "Exact because Less touches coordinates only through comparisons and swaps (checked by the evaluator); trusts sort.Sort given a strict weak order."),
+ "C09": ("orders", "abstract interpretation over the finite domain of order types (total preorders of the endpoints) of comparison-only code, including loops, slices and sorting with concrete indices", "DESIGN.md 4/C09",
+         "Static decision of the partition property itself for every input with up to 3 segments: Minimize, InvertLinear and InvertCircular are evaluated by an abstract interpreter over order types (coordinates are symbolic atoms ranked by a total preorder; the code may only compare, copy and store them), once per ordering of the endpoints with 0 and n (18 948 orderings, flat, bare and nested region shapes), against the partition oracle; plus BySegment.Less is a strict weak order and Min/Max/Compare are correct (all 4683 / 3 orderings). Exact for all coordinate values; bounded in the number of segments.",
+         "Exact because the functions touch coordinates only through comparisons, copies and stores (any arithmetic on a coordinate aborts the evaluation as undecided); sort.Sort is modelled as an insertion sort through the interpreted Less/Swap, which is what any correct sort yields for a strict weak order; bounded to 3 segments."),
  "C15": ("conserve", "reaching-definitions provenance analysis on go/cfg with resolved callees", "DESIGN.md 4/C15",
          "Static decision of INPUT-COORD for the six multi-site edit commands: every definition of the locator's argument that reaches the call is the record as scanned, never the result of an edit operation. Necessary for 'measured in the input's coordinates'; order of application and de-duplication are value-level and not decided.",
          "Edit operations are the exported sequence operations of package gts (also through function-valued locals); Copy/WithTopology/WithInfo preserve coordinates."),
